@@ -1362,6 +1362,124 @@ def _rule6(model, rep):
 # ---------------------------------------------------------------------------
 
 
+_RAISERS = {'remove': 'list.remove / set.remove', 'index': '.index', 'popitem': '.popitem'}
+
+
+def _may_raise_ops(fn):
+    """operations of a function body that raise KeyError / IndexError / ValueError / an explicit exception on some input"""
+    out = []
+    for n in fn.own_nodes():
+        if isinstance(n, ast.Raise):
+            out.append((n, 'raise'))
+        elif isinstance(n, ast.Delete) and any(isinstance(t, ast.Subscript) for t in n.targets):
+            out.append((n, 'del <mapping>[key]'))
+        elif isinstance(n, ast.Subscript) and isinstance(n.ctx, ast.Load) and not isinstance(n.slice, ast.Slice) and not isinstance(n.value, (ast.Tuple, ast.List, ast.Constant)):
+            out.append((n, '<mapping>[key] read'))
+        elif isinstance(n, ast.Call) and isinstance(n.func, ast.Attribute):
+            if n.func.attr in _RAISERS and n.args:
+                out.append((n, _RAISERS[n.func.attr]))
+            elif n.func.attr == 'pop' and len(n.args) == 1 and not isinstance(n.func.value, ast.List):
+                out.append((n, '.pop(key) without default'))
+        elif isinstance(n, ast.Assert):
+            out.append((n, 'assert'))
+    return out
+
+
+def _rule7(model, rep):
+    """grant window (added after seeded change C13-3: lockview.add_task deleted the begin record of the phase it closes;
+    called between taking the lock and telling the client, a missing record raised KeyError: the lock stayed taken, the
+    client kept waiting and every other waiter starved)"""
+    prog = model.prog
+    worker = prog.cls('dawgie.db.shelve.comms.Worker')
+    acq = prog.nfunc(worker.methods['_do_acquire'].qname)
+    rep.analysed(acq)
+    with rep.rule(
+        'R-C13-7',
+        'grant window: between taking the lock (_lock_db) and answering the client (_send) the acquiring connection calls nothing that can raise (explicit raise, del / read of a mapping entry, .remove / .index / .pop(key)), followed two levels into repository callees',
+        floor=3,
+        breaks='an exception between the two steps leaves the lock taken by a connection whose client was never told: it blocks for ever and every other waiter starves',
+    ) as r:
+        LOCK = 'dawgie.context.lock_db'
+
+        def _role(call):
+            """'lock': the call takes the database lock (context.lock_db itself or a Worker method that calls it);
+            'send': it writes to the connection (transport.write itself or a Worker method that does)"""
+            q = prog.callee(call, acq)
+            if q == LOCK:
+                return 'lock'
+            if isinstance(call.func, ast.Attribute) and call.func.attr == 'write' and norm(call.func.value).endswith('transport'):
+                return 'send'
+            g = prog.funcs.get(q) if q else None
+            if g is not None and g.cls is not None and g.cls.qname == worker.qname:
+                for c in g.calls():
+                    if prog.callee(c, g) == LOCK:
+                        return 'lock'
+                    if isinstance(c.func, ast.Attribute) and c.func.attr == 'write' and norm(c.func.value).endswith('transport'):
+                        return 'send'
+            return None
+
+        class Win(Flow):
+            def __init__(s):
+                super().__init__()
+                s.calls = []
+
+            def on_call(s, call, st):
+                role = _role(call)
+                if role == 'lock':
+                    return ('locked',)
+                if role == 'send' and st == 'locked':
+                    return ('told',)
+                if st == 'locked':
+                    s.calls.append(call)
+                return (st,)
+
+            def may_raise(s, call, st):
+                return False
+
+        w = Win()
+        w.run(acq.node, 'pre')
+        roles = {_role(c) for c in acq.calls()}
+        if not {'lock', 'send'} <= roles:
+            raise AnalysisError('Worker._do_acquire: the call that takes the lock / the call that answers the client was not found')
+        seen = set()
+
+        def visit(fn, depth, via):
+            if fn.qname in seen or depth > 2:
+                return
+            seen.add(fn.qname)
+            rep.analysed(fn)
+            r.instance()
+            ops = _may_raise_ops(fn)
+            r.check(
+                not ops,
+                f'{fn.qname}:no-raise-in-grant-window',
+                where(fn, ops[0][0] if ops else None),
+                f'called in the grant window ({via}); no raising operation',
+                f'{fn.qname} is called between _lock_db() and _send() ({via}) and contains {ops[0][1] if ops else ""} ({norm(ops[0][0])[:60] if ops else ""}): if it raises, the lock is taken but the client is never answered',
+            )
+            for c in fn.calls():
+                q = prog.callee(c, fn)
+                g = prog.funcs.get(q) if q else None
+                if g is None and q in prog.classes:
+                    g = prog.classes[q].methods.get('__init__')
+                if g is not None:
+                    visit(g, depth + 1, f'{via} -> {fn.name}')
+
+        # the window itself: raising operations written directly in _do_acquire after the lock is taken are covered by the
+        # exact state machine of R-C13-2; here the callees
+        for c in w.calls:
+            q = prog.callee(c, acq)
+            g = prog.funcs.get(q) if q else None
+            if g is None and q in prog.classes:
+                g = prog.classes[q].methods.get('__init__')
+            if g is None and isinstance(c.func, ast.Attribute) and c.func.attr == 'add_task':
+                g = prog.funcs.get('dawgie.db.lockview.TaskLockEngine.add_task')
+            if g is not None and g.module.name.startswith('dawgie.'):
+                visit(g, 0, '_do_acquire')
+        r.extra['window_calls'] = [norm(c)[:60] for c in w.calls]
+        r.extra['callees_followed'] = sorted(seen)
+
+
 def check(ctx):
     rep = Report(
         PID,
@@ -1399,6 +1517,7 @@ def check(ctx):
     _rule4(model, rep)
     _rule5(model, rep)
     _rule6(model, rep)
+    _rule7(model, rep)
     for f in model.sink.funcs.values():
         rep.analysed(f)
     return rep
@@ -1406,6 +1525,8 @@ def check(ctx):
 
 _CF = 'db/shelve/comms.py'
 VARIANTS = [
+    V('lock view drops the begin record of a closed phase', 'B', 'db/lockview.py', 'TaskLockEngine.add_task', 'self.queue[(name, action)] = TaskLock(name, action)', 'del self.queue[(name, None)]\n        self.queue[(name, action)] = TaskLock(name, action)', 'R-C13-7'),
+    V('lock view forgets a closed phase tolerantly', 'N', 'db/lockview.py', 'TaskLockEngine.add_task', 'self.queue[(name, action)] = TaskLock(name, action)', 'self.queue.pop((name, None), None)\n        self.queue[(name, action)] = TaskLock(name, action)', None),
     # ---- breaking
     V('lock taken before the status test', 'B', _CF, 'Worker._do_acquire', 's = self._get_db_lock_status()',
       's = self._get_db_lock_status()\n        self._lock_db()', 'R-C13-2'),
